@@ -189,10 +189,19 @@ impl ops::Add<&Array> for &Array {
 
     #[inline]
     fn add(self, other: &Array) -> Self::Output {
+        // each delta is a separate array over the same values, so that the gradients do not share bookkeeping
         let backward_op: BackwardOp = Rc::new(|_, t, x| {
             vec![
-                if t[0] { Some(x.clone()) } else { None },
-                if t[1] { Some(x.clone()) } else { None },
+                if t[0] {
+                    Some(Array::from((x.dimensions.clone(), Rc::clone(&x.values))))
+                } else {
+                    None
+                },
+                if t[1] {
+                    Some(Array::from((x.dimensions.clone(), Rc::clone(&x.values))))
+                } else {
+                    None
+                },
             ]
         });
 
